@@ -171,12 +171,33 @@ def decide(pid, prop, tier, seed, results, undecided, t0, load_expect, findings)
                 oracle_fail = fails[0]
         except Exception as e:  # the bounded search never turns a pass into a failure by crashing
             bounded = [{'check': 'oracles', 'status': 'ERROR', 'detail': repr(e)}]
+    # A lost proof is not yet a broken property. A violation without a failing input is reported only if the real crate also ANSWERS
+    # differently from the pinned tree somewhere on the bounded universe of this property's oracles (behaviour digests, oracles.py);
+    # if every answer is the same the edit is behaviour-preserving as far as anyone can see and the verdict is undecided (exit 2).
+    behaviour = None
+    if confirmed and not oracle_fail:
+        try:
+            behaviour = oracles.behaviour_changed(pid, bounded)
+        except Exception as e:
+            behaviour = (None, repr(e))
+        if behaviour[0] is False:
+            for r, k in confirmed:
+                undec.append((r.name, 'obligation %s is no longer discharged (%s), but on the bounded universe of %s the real crate answers exactly as on the pinned tree: the proof is lost, no violation is established'
+                              % (k, r.failed[k][0]['message'][:120], ', '.join(behaviour[1]))))
+            confirmed = []
     for r, k in confirmed:
         wit = None
         if oracle_fail:
             wit = {'kind': 'bounded-search', 'oracle': oracle_fail['check'], 'failing_input': oracle_fail['detail'], 'cmd': oracle_fail.get('cmd'),
                    'note': 'found by exhaustive execution of the real crate on a small universe; replay with ./check %s --replay <this file>' % pid}
         path = write_replay(pid, r, k, r.failed[k], wit, True)
+        if not wit and behaviour and behaviour[0]:
+            try:
+                d = json.load(open(path))
+                d['behaviour_differs_from_pinned_tree_in'] = behaviour[1]
+                json.dump(d, open(path, 'w'), indent=1)
+            except Exception:
+                pass
         tail = '' if wit else ' no-failing-input-found'
         lines.append('VIOLATION property=%s replay=%s obligation=%s%s' % (pid, path, k, tail))
         exit_code = 1
